@@ -153,10 +153,28 @@ Definition chk (c : nat * nat * option nat * nat * nat) : bool :=
     chk.count({'scan': c}, len(c['axis']) >= 2)
     if 'err' in o or not (o['ok']['carry_ok'] and o['ok']['ys_ok']):
       chk.violation('oracle', 'scan_in_dim differs from the nested Python loop over the chosen axes', {'case': c, 'observed': o})
+  rcoq = []
   for c, o in zip(reshape, reres):
     chk.count({'reshape': c}, c['d'] > 1)
+    raw = o.get('ok', {}).pop('_raw', None)
+    if raw is not None:
+      zl = lambda l: clist([cZ(int(v)) for v in l])
+      zll = lambda ll: clist([zl(l) for l in ll])
+      rcoq.append(cpair(cnat(c['d']), zl(raw['shard'][0]), zll(raw['shard'][1]), zll(raw['forest'][0]), zll(raw['forest'][1]),
+                        zl(raw['onehot'][0]), cnat(raw['onehot'][1]), zll(raw['onehot'][2])))
     if 'err' in o or not all(o['ok'].values()):
       chk.violation('oracle', 'shard / stack_forest / onehot / replicate / unreplicate is not the stated reshape', {'case': c, 'observed': o})
+  rhdr = 'From Flaxm Require Import Lib.Harness Model.Host.\n' + """
+Definition zll_beq := list_beq (list_beq Z.eqb).
+Definition chk (c : nat * list Z * list (list Z) * list (list Z) * list (list Z) * list Z * nat * list (list Z)) : bool :=
+  let '(d, x, sh, forest, st, labels, k, oh) := c in
+  zll_beq (shard d x) sh && zll_beq (stack_forest 2 forest) st && zll_beq (onehot labels k 5 (-2))%Z oh.
+"""
+  bad = common.coq_mismatches('c20_reshape', rhdr, rcoq, 'chk', shard=500)
+  for i in bad[:5]:
+    chk.violation('correspondence', 'Model/Host.v shard / stack_forest / onehot and flax.training.common_utils disagree (C20_shard, C20_stack_forest, C20_onehot_* no longer transfer)',
+                  {'case': reshape[i], 'observed': reres[i]})
+  chk.cov['traces_validated_against_impl'] = chk.cov.get('traces_validated_against_impl', 0) + len(rcoq)
   chk.notes['schedules_explored'] = nsched
   chk.notes['source_configurations_with_all_schedules_enumerated'] = exhaustive_groups
   chk.notes['pad_grid_points'] = len(pad)
